@@ -54,10 +54,22 @@ class Expr:
         "stype": {"A": "SA", "T": "ST", "F": "SF"},
     }
 
-    def __init__(self, env, calls=None):
+    def __init__(self, env, calls=None, atoms=None):
         self.env = env
         self.calls = calls or {}  # dotted callee -> (coq name, result type)
+        self.atoms = atoms or {}  # ast.unparse(sub-expression) -> (coq variable, type): opaque sub-expressions
         self.free = {}
+
+    def atom(self, node):
+        try:
+            key = ast.unparse(node)
+        except Exception:
+            return None
+        if key in self.atoms:
+            n, t = self.atoms[key]
+            self.env[n] = t
+            return n, t
+        return None
 
     def name(self, node):
         n = dotted(node)
@@ -69,6 +81,9 @@ class Expr:
         return n
 
     def ty(self, node):
+        a = self.atom(node)
+        if a:
+            return a[1]
         if isinstance(node, ast.Constant):
             v = node.value
             if isinstance(v, bool):
@@ -109,6 +124,12 @@ class Expr:
         bail(node, "type")
 
     def tr(self, node):
+        a = self.atom(node)
+        if a:
+            if a[1] == "list":
+                bail(node, "list used as a value")
+            self.free[a[0]] = a[1]
+            return a[0]
         if isinstance(node, ast.Constant):
             v = node.value
             if isinstance(v, bool):
@@ -206,7 +227,8 @@ class Expr:
                 return f"({f} {self.tr(node.args[0])} {self.tr(node.func.value)})"
             if isinstance(node.func, ast.Name) and node.func.id == "len" and len(node.args) == 1:
                 if self.ty(node.args[0]) == "list":
-                    n = dotted(node.args[0]) + "_len"
+                    a = self.atom(node.args[0])
+                    n = (a[0] if a else dotted(node.args[0])) + "_len"
                     self.env[n] = "Z"
                     self.free[n] = "Z"
                     return n
@@ -233,6 +255,12 @@ class Expr:
             return f"(optZ_truthy {self.tr(node)})"
         if t == "str":
             return f"(negb (str_eqb {self.tr(node)} (@nil N)))"
+        if t == "list":
+            a = self.atom(node)
+            n = (a[0] if a else dotted(node)) + "_len"
+            self.env[n] = "Z"
+            self.free[n] = "Z"
+            return f"(negb ({n} =? 0)%Z)"
         bail(node, f"truthiness of {t}")
 
     def args(self, order=None):
@@ -282,7 +310,7 @@ def reject_clauses(tree, qual, arg, coqname=None):
     return f"Definition {coqname or fn.name} ({arg} : str) : bool :=\n  " + "\n  || ".join(clauses or ["false"]) + "."
 
 
-def assigned(tree, qual, target, env, coqname, order=None, calls=None, which=0):
+def assigned(tree, qual, target, env, coqname, order=None, calls=None, which=0, atoms=None):
     """the expression of the which-th assignment to `target` inside function `qual`, as a function of its free names"""
     fn = find_func(tree, qual)
     hits = [n for n in ast.walk(fn) if isinstance(n, ast.Assign) and len(n.targets) == 1 and isinstance(n.targets[0], ast.Name) and n.targets[0].id == target]
@@ -291,7 +319,7 @@ def assigned(tree, qual, target, env, coqname, order=None, calls=None, which=0):
         raise Untranslatable(f"UNTRANSLATABLE: assignment to {target} in {qual} not found")
     if which >= len(hits):
         raise Untranslatable(f"UNTRANSLATABLE: assignment #{which} to {target} in {qual} not found")
-    ex = Expr(dict(env), calls)
+    ex = Expr(dict(env), calls, atoms)
     body = ex.tr(hits[which].value)
     return f"(* line {hits[which].lineno} *) Definition {coqname} {ex.args(order)} := {body}."
 
@@ -302,7 +330,7 @@ def if_tests(fn):
     return ifs
 
 
-def nth_test(tree, qual, n, env, coqname, order=None, calls=None, expect_count=None):
+def nth_test(tree, qual, n, env, coqname, order=None, calls=None, expect_count=None, atoms=None):
     """the test of the n-th if/while (source order) of function `qual` as a boolean function"""
     fn = find_func(tree, qual)
     ifs = if_tests(fn)
@@ -310,7 +338,7 @@ def nth_test(tree, qual, n, env, coqname, order=None, calls=None, expect_count=N
         raise Untranslatable(f"UNTRANSLATABLE: {qual} has {len(ifs)} if/while tests, the locator expects {expect_count}")
     if n >= len(ifs):
         raise Untranslatable(f"UNTRANSLATABLE: {qual} has no test #{n}")
-    ex = Expr(dict(env), calls)
+    ex = Expr(dict(env), calls, atoms)
     body = ex.truthy(ifs[n].test)
     return f"(* line {ifs[n].lineno} *) Definition {coqname} {ex.args(order)} : bool := {body}."
 
